@@ -83,8 +83,14 @@ Lemma NI_prepare_metadata_pdu : NI prepare_metadata_pdu.
 Proof. unfold prepare_metadata_pdu. ni. Qed.
 Lemma NI_prepare_eof_pdu : forall ck, NI (prepare_eof_pdu ck).
 Proof. intros. unfold prepare_eof_pdu. ni. Qed.
+Lemma NI_notice_of_completion_s : NI notice_of_completion_s.
+Proof. unfold notice_of_completion_s. ni. Qed.
+(* the cancelled unacknowledged transaction ends through _notice_of_completion *)
 Lemma NI_handle_eof_sent : forall b, NI (handle_eof_sent b).
-Proof. intros. unfold handle_eof_sent, start_positive_ack_procedure_s. ni. Qed.
+Proof.
+  intros. unfold handle_eof_sent, start_positive_ack_procedure_s.
+  repeat first [ apply NI_notice_of_completion_s | ni1 | progress unf ].
+Qed.
 Lemma NI_notice_of_cancellation_s : forall c, NI (notice_of_cancellation_s c).
 Proof.
   intros. unfold notice_of_cancellation_s.
@@ -155,8 +161,6 @@ Lemma NI_handle_waiting_for_ack : NI (handle_waiting_for_ack None).
 Proof. unfold handle_waiting_for_ack, handle_retransmission. repeat first [apply NI_handle_positive_ack_procedures_s | nik | ni1 | progress unf]. Qed.
 Lemma NI_handle_wait_for_finish : NI (handle_wait_for_finish None).
 Proof. unfold handle_wait_for_finish, handle_retransmission. nia. Qed.
-Lemma NI_notice_of_completion_s : NI notice_of_completion_s.
-Proof. unfold notice_of_completion_s. nia. Qed.
 
 Lemma NI_fsm_non_idle : NI (fsm_non_idle None).
 Proof.
